@@ -2,6 +2,7 @@
 // Real code: Topology::setBox / BCShortestConnection / getDist / BoxVolume /
 // ShortestBoxSize / getBoxType. Oracle: long double brute force.
 #include "vfh.h"
+#include <memory>
 #include <votca/csg/topology.h>
 
 using namespace votca::csg;
@@ -130,7 +131,14 @@ int main(int argc, char **argv) {
     int kind = (ib % 10 == 0) ? 0 : (ib % 2 ? 1 : 2);
     Box B = gen_box(rng, kind);
     int explicit_mode = (int)rng.range(0, 3);  // 0 auto; 1 explicit same; 2 diagonal box as explicit triclinic; 3 auto
-    Topology top;
+    // histories: half of the boxes are set on a Topology that already carried other boxes (as a trajectory reader does
+    // frame after frame: orthorhombic -> triclinic -> open -> ...), the others on a fresh object
+    static std::unique_ptr<Topology> persistent;
+    if (!persistent || rng.coin(0.05)) persistent = std::make_unique<Topology>();
+    Topology fresh;
+    bool reuse = rng.coin(0.5);
+    Topology &top = reuse ? *persistent : fresh;
+    R.counter(reuse ? "boxes_set_on_reused_topology" : "boxes_set_on_fresh_topology");
     Box Bcode = B;
     if (explicit_mode == 1) {
       top.setBox(B.m, kind == 0 ? BoundaryCondition::typeOpen : kind == 1 ? BoundaryCondition::typeOrthorhombic : BoundaryCondition::typeTriclinic);
@@ -139,7 +147,7 @@ int main(int argc, char **argv) {
     } else {
       top.setBox(B.m);
     }
-    J bj; bj.raw("box", boxjson(B)).i("explicit_mode", explicit_mode);
+    J bj; bj.raw("box", boxjson(B)).i("explicit_mode", explicit_mode).b("reused_topology", reuse);
     // (g) type detection
     {
       R.eval("boxtype");
@@ -184,7 +192,7 @@ int main(int argc, char **argv) {
       const char *fam = kind == 0 ? "open" : kind == 1 ? "ortho" : "triclinic";
       R.eval(fam);
       auto wit = [&](const Eigen::Vector3d &got) {
-        J w; w.raw("box", boxjson(B)).i("explicit_mode", explicit_mode).vec("ri", vv(ri)).vec("rj", vv(rj)).vec("got", vv(got));
+        J w; w.raw("box", boxjson(B)).i("explicit_mode", explicit_mode).b("reused_topology", reuse).vec("ri", vv(ri)).vec("rj", vv(rj)).vec("got", vv(got));
         return w;
       };
       if (kind == 0) {
